@@ -1418,8 +1418,9 @@ class ModelBuilder:
                     for scIdx in range(obj.project.scenarioCount()):
                         obj[("timezone", scIdx)] = value
                 elif key == "effort":
-                    # Set for all scenarios (no prefix means apply to all)
-                    for scIdx in range(obj.project.scenarioCount()):
+                    # No prefix: the value of the top scenario and of every scenario below it that
+                    # has no line of its own (nor inherits one from a scenario in between)
+                    for scIdx in self._scenarios_without_own_value(obj, "effort"):
                         obj[("effort", scIdx)] = value
                 elif key == "depends":
                     # Store for later resolution (after all tasks created)
@@ -1433,12 +1434,14 @@ class ModelBuilder:
                     for scIdx in range(obj.project.scenarioCount()):
                         obj[("allocate", scIdx)] = value
                 elif key == "start":
-                    # Set for all scenarios
-                    for scIdx in range(obj.project.scenarioCount()):
+                    # No prefix: the value of the top scenario and of every scenario below it that
+                    # has no line of its own (nor inherits one from a scenario in between)
+                    for scIdx in self._scenarios_without_own_value(obj, "start"):
                         obj[("start", scIdx)] = value
                 elif key == "end":
-                    # Set for all scenarios
-                    for scIdx in range(obj.project.scenarioCount()):
+                    # No prefix: the value of the top scenario and of every scenario below it that
+                    # has no line of its own (nor inherits one from a scenario in between)
+                    for scIdx in self._scenarios_without_own_value(obj, "end"):
                         obj[("end", scIdx)] = value
                 elif key == "milestone":
                     # Set for all scenarios
@@ -1465,12 +1468,12 @@ class ModelBuilder:
                     if scenario_idx is not None and attr_data and isinstance(attr_data, tuple):
                         attr_key, attr_value = attr_data
                         obj[(attr_key, scenario_idx)] = attr_value
-                        # Nested scenarios inherit the value from their parent scenario unless
-                        # they carry an override of their own (whatever the order in the file)
+                        # Nested scenarios inherit the value from the nearest enclosing scenario
+                        # that carries a line of its own (whatever the order in the file)
                         explicit = self.__dict__.setdefault("_explicit_scenario_attrs", set())
                         explicit.add((id(obj), attr_key, scenario_idx))
                         for child_idx in self._descendant_scenario_indices(obj.project, scenario_id):
-                            if (id(obj), attr_key, child_idx) not in explicit:
+                            if self._nearest_explicit_scenario(obj, attr_key, child_idx) == scenario_idx:
                                 obj[(attr_key, child_idx)] = attr_value
                 elif key == "journalentry":
                     # Create a journal entry for this task
@@ -1648,6 +1651,35 @@ class ModelBuilder:
                 else:
                     with contextlib.suppress(ValueError, KeyError, AttributeError):
                         obj[key] = value
+
+    def _nearest_explicit_scenario(self, obj: Any, attr_key: str, scenario_idx: int) -> Optional[int]:
+        """The scenario whose own line decides the attribute in scenario_idx: that scenario itself
+        or the nearest enclosing one with a line like 's1:effort 2h' on this property; None if
+        there is none (the unprefixed value, or what the property inherits, applies)."""
+        explicit = self.__dict__.get("_explicit_scenario_attrs", set())
+        scenarios = list(obj.project.scenarios)
+        if not 0 <= scenario_idx < len(scenarios):
+            return None
+        index_of = {id(sc): i for i, sc in enumerate(scenarios)}
+        sc: Any = scenarios[scenario_idx]
+        while sc is not None:
+            idx = index_of.get(id(sc))
+            if idx is not None and (id(obj), attr_key, idx) in explicit:
+                return idx
+            sc = sc.parent
+        return None
+
+    def _scenarios_without_own_value(self, obj: Any, attr_key: str) -> list[int]:
+        """Scenario indices an unprefixed attribute line applies to.
+
+        A line like 's1:effort 2h' written earlier in the same task keeps its value for s1 and
+        the scenarios below it: the order of the lines does not matter.
+        """
+        return [
+            i
+            for i in range(obj.project.scenarioCount())
+            if self._nearest_explicit_scenario(obj, attr_key, i) is None
+        ]
 
     def _descendant_scenario_indices(self, project: Project, scenario_id: str) -> list[int]:
         """Indices of all scenarios nested (directly or indirectly) below the given one."""
